@@ -22,6 +22,31 @@ def read_programs(path):
     return alpha, progs
 
 
+def item_of_spec(spec):
+    it = {"how": spec[0], "qs": spec[1]}
+    if spec[0] == "gen":
+        it.update(k="gen", g=spec[2])
+    elif spec[0] == "mz":
+        it.update(k="mz")
+    else:
+        it.update(k="map", m=spec[2], mi=spec[3])
+    return it
+
+
+def read_sim_programs(printed):
+    """behaviours of MC_CircuitSim: list of (items, model layout)"""
+    progs, cur = [], None
+    for e in printed:
+        if e[0] != "G":
+            continue
+        if e[1] == 1:
+            cur = {"items": [], "layout": None}
+            progs.append(cur)
+        cur["items"].append(item_of_spec(e[2]))
+        cur["layout"] = e[3]
+    return progs
+
+
 def wire_item(it):
     w = {"k": it["k"], "qs": it["qs"]}
     for f in ("g", "m", "mi"):
